@@ -30,7 +30,7 @@ ASSUMPTIONS = ["DatetimeIndex.freq of caller objects is recorded, not judged (ca
                "model state is judged on what the statement names: the serialised form and the predictions (private caches are recorded, not judged)"]
 REQUIRED_REACH = {"predict.json_before_after": 25, "predict.history_vs_pristine": 25, "data.fit_fingerprint": 6, "data.predict_fingerprint": 25, "fit.model_added_disqualification": 1,
                   "ctor.caller_frame_fingerprint": 20, "alias.df_probe": 6, "alias.prediction_probe": 6,
-                  "history.other_model_of_another_configuration_used_in_between": 6}
+                  "history.other_model_of_another_configuration_used_in_between": 6, "alias.view_read": 10, "data.weighted_billing_model_used": 1}
 
 VIOL = []
 CUR = {}
@@ -208,6 +208,47 @@ def run_model_case(spec, keys):
             p2 = fam.predict(copy.deepcopy(pristine), rdata)
             if ref is not None and I.frame_equal_bits(ref, p2):
                 add("prediction-frame-aliases-later-prediction:" + fam.kind, "writing into a returned prediction changed a later prediction of the same data")
+    # ---- every public view of the data objects: reading it changes nothing, what it hands out is an independent copy ----------
+    for dobj, dname in ((data, "baseline"), (fam.reporting_data(sets[("month", True)].copy(deep=True)), "reporting")):
+        for attr in [a for a in dir(type(dobj)) if not a.startswith("_") and isinstance(getattr(type(dobj), a, None), property)]:
+            before = data_fp(dobj)
+            try:
+                h1 = getattr(dobj, attr)
+                h2 = getattr(dobj, attr)
+            except Exception:
+                continue
+            I.reach("alias.view_read")
+            if data_fp(dobj) != before:
+                add("reading-a-view-changed-the-data-object:%s:%s" % (fam.kind, attr), "reading %s.%s changed the %s data object: %s" % (type(dobj).__name__, attr, dname, I.fp_diff(before, data_fp(dobj))), attr=attr)
+                before = data_fp(dobj)
+            if isinstance(h1, (pd.DataFrame, pd.Series)) and len(h1):
+                try:
+                    if isinstance(h1, pd.DataFrame):
+                        h1.iloc[0, 0] = h1.iloc[0, 0]
+                        h1["__probe__"] = 3.0
+                    h1.drop(h1.index[:1], inplace=True)
+                except Exception:
+                    pass
+                if data_fp(dobj) != before and attr != "df":
+                    add("view-handout-aliases-data-object:%s:%s" % (fam.kind, attr), "writing into the frame handed out by .%s changed the data object" % attr, attr=attr)
+    if fam.kind == "billing":
+        # the weighted billing model reads the billing view of the data objects: they stay as they were
+        import opendsm.eemeter as em
+        import warnings as _w
+        d2, r2 = copy.deepcopy(data), fam.reporting_data(sets[("partial", True)].copy(deep=True))
+        b2, rb2 = data_fp(d2), data_fp(r2)
+        try:
+            with _w.catch_warnings():
+                _w.simplefilter("ignore")
+                wm = em.BillingWeightedModel().fit(d2, ignore_disqualification=True)
+                wm.predict(r2, ignore_disqualification=True)
+            I.reach("data.weighted_billing_model_used")
+            if data_fp(d2) != b2:
+                add("fit-modified-data-object:billing:weighted-model", "BillingWeightedModel.fit changed the baseline data object: %s" % I.fp_diff(b2, data_fp(d2)))
+            if data_fp(r2) != rb2:
+                add("predict-modified-data-object:billing:weighted-model", "BillingWeightedModel.predict changed the reporting data object: %s" % I.fp_diff(rb2, data_fp(r2)))
+        except Exception:
+            I.reach("data.weighted_billing_model_raised_not_judged_here")
     # ---- .df hand-outs -------------------------------------------------------------------------------------
     I.reach("alias.df_probe")
     own = data_fp(data)
